@@ -35,6 +35,7 @@ class Rec(WM.WcMatch):
         self.raise_at = None
         self.at_hook = None       # callable(count) run inside every hook (used for the cross-thread schedule)
         self.skip_none = kw.get('skip_none', False)
+        self.falsy = kw.get('falsy', False)      # hooks return falsy values that are not None: they must pass through
 
     def tick(self, what, *a, can_raise=False):
         self.count += 1
@@ -69,15 +70,17 @@ class Rec(WM.WcMatch):
 
     def on_skip(self, base, name):
         self.tick('skip', name)
+        if self.falsy:
+            return 0
         return None if self.skip_none else ('S', name)
 
     def on_error(self, base, name):
         self.tick('err', name)
-        return ('E', name)
+        return '' if self.falsy else ('E', name)
 
     def on_match(self, base, name):
         self.tick('match', name)
-        return ('M', os.path.join(base, name))
+        return False if self.falsy else ('M', os.path.join(base, name))
 
 
 CONFIGS = [
@@ -161,6 +164,23 @@ def run_abort(desc):
         Un = wn.match()
         if Un != [u for u in U if u[0] != 'S'] or wn.get_skipped() != sk:
             fail('on_skip returning None changes more than dropping the skip values')
+        # falsy values that are not None (0, '', False) are values like any other: unchanged and in position
+        wf = new(falsy=True)
+        Uf = wf.match()
+        want_f = [False if u[0] == 'M' else 0 for u in U]
+        out.evaluations += 1
+        if [(type(x), x) for x in Uf] != [(type(x), x) for x in want_f]:
+            fail('falsy hook return values (0, False) are not passed through unchanged', got=repr(Uf[:6]), want=repr(want_f[:6]))
+        for j in range(1, n + 1):
+            if log_full[j - 1][0] not in ('vf', 'cf', 'vd', 'cd'):
+                continue
+            wf = new(falsy=True)
+            wf.raise_at = j
+            got_f = wf.match()
+            out.evaluations += 1
+            if '' not in got_f:
+                fail('a falsy value returned by on_error (empty string) is dropped', j=j)
+                break
         nontrivial = len(U) >= 3 and len(skips) >= 1
         # ---- every abort point (with on_skip returning a value, and returning None) ---------------------
         U_all, n_all, log_all = U, n, log_full
